@@ -55,11 +55,29 @@ def _ints(path, tag):
 
 
 def replay(ctx, tlc_out, tag, spelling="mixed", slice_=0, of=1):
+    """-> (trace path, summary, fatal) ; fatal = the record of a case that killed the worker process (stack overflow, out of
+    memory: not recoverable in Go), found by running the cases again one at a time with a progress file."""
     trace = os.path.join(ctx.scratch, "tpl-%s-trace.ndjson" % tag)
     summ = os.path.join(ctx.scratch, "tpl-%s-sum.json" % tag)
-    ctx.run_worker(["templates-replay", "-in", tlc_out, "-trace", trace, "-work", os.path.join(ctx.scratch, "tpl-%s-work" % tag),
-                    "-spelling", spelling, "-slice", str(slice_), "-of", str(of), "-par", "12"], stdout_path=summ, timeout=3000)
-    return trace, json.load(open(summ))
+    args = ["templates-replay", "-in", tlc_out, "-trace", trace, "-work", os.path.join(ctx.scratch, "tpl-%s-work" % tag),
+            "-spelling", spelling, "-slice", str(slice_), "-of", str(of)]
+    try:
+        ctx.run_worker(args + ["-par", "12"], stdout_path=summ, timeout=3000)
+        return trace, json.load(open(summ)), None
+    except core.Inconclusive as e:
+        if "worker failed" not in str(e):
+            raise
+    prog = os.path.join(ctx.scratch, "tpl-%s-progress.json" % tag)
+    try:
+        ctx.run_worker(args + ["-par", "1", "-progress", prog], stdout_path=summ, timeout=6000)
+    except core.Inconclusive as e:
+        if "worker failed" not in str(e) or not os.path.exists(prog):
+            raise
+        rec = json.load(open(prog))
+        rec.update({"hang": False, "fatal": True, "got": {"failed": False, "panic": "fatal error: the process died", "render": {}, "exists": {}}})
+        open(trace, "w").close()
+        return trace, {"cases": 0, "set_failed": 0}, rec
+    raise core.Inconclusive("the template worker failed with 12 probes in flight but not one at a time")
 
 
 def judge(ctx, trace, tag):
@@ -108,24 +126,33 @@ def run_part(ctx):
     mc = ctx.run_tlc("TemplatesMC", "TemplatesMC.cfg", workers=8, timeout=1800)
     tlc.append(mc)
     nslices = 1 if thorough else QUICK_SLICES
-    trace, summ = replay(ctx, mc["out"], "mc", slice_=ctx.seed % nslices, of=nslices)
+    trace, summ, fatal1 = replay(ctx, mc["out"], "mc", slice_=ctx.seed % nslices, of=nslices)
     recs, tfails, trs = judge(ctx, trace, "mc")
     tlc += trs
     all_recs = [(recs, tfails, "mc")]
     # deeper histories by seeded simulation (3-4 files)
-    sim = ctx.run_tlc("TemplatesMC", "TemplatesMC.cfg", workers=1, timeout=1800, simulate="num=%d" % (6000 if thorough else 600),
+    sim = ctx.run_tlc("TemplatesMC", "TemplatesMC.cfg", workers=1, timeout=1800, simulate="num=%d" % (600 if thorough else 60),
                       depth=7, constants={"MaxFiles": "4"})
     tlc.append(sim)
-    strace, ssumm = replay(ctx, sim["out"], "sim")
+    # -simulate evaluates Emit on every successor of every state it visits: far more histories than behaviours; a slice is replayed
+    sof = 10 if thorough else 20
+    strace, ssumm, fatal2 = replay(ctx, sim["out"], "sim", slice_=ctx.seed % sof, of=sof)
     srecs, sfails, trs = judge(ctx, strace, "sim")
     tlc += trs
     all_recs.append((srecs, sfails, "sim"))
     # R6: the ./ spelling on a small slice (override cases only) - observation only
-    dtrace, dsumm = replay(ctx, mc["out"], "dot", spelling="dot", slice_=ctx.seed % 200, of=200)
+    dtrace, dsumm, fatal3 = replay(ctx, mc["out"], "dot", spelling="dot", slice_=ctx.seed % 200, of=200)
     drecs, dfails, trs = judge(ctx, dtrace, "dot")
     tlc += trs
     all_recs.append((drecs, dfails, "dot"))
 
+    for rec in (fatal1, fatal2, fatal3):
+        if rec:
+            cls = shape_class(rec)
+            fails.append(("C04/templates/fatal/%s" % cls, "rendering override templates kills the process (fatal error such as a stack "
+                          "overflow; not recoverable): files %s" % json.dumps(rec["files"])[:400], {"part": "templates", "record": rec}, None))
+    if fails and not recs:
+        return {"fails": fails, "coverage": cov, "tlc": tlc}
     judged = accepted = 0
     classes = {}
     samples = []
@@ -177,7 +204,9 @@ def replay_part(ctx, rp):
     fake = os.path.join(ctx.scratch, "tpl-replay-cases.txt")
     payload = json.dumps({"files": rec["files"], "expect": {}})
     open(fake, "w").write('<<"CASE", %s>>\n' % json.dumps(payload))
-    trace, _ = replay(ctx, fake, "rp", spelling=rec.get("spelling", "abs"))
+    trace, _, fatal = replay(ctx, fake, "rp", spelling=rec.get("spelling", "abs"))
+    if fatal:
+        return [("C04/templates/fatal/%s" % shape_class(fatal), "replayed", {"part": "templates", "record": fatal}, None)]
     recs, tfails, _ = judge(ctx, trace, "rp")
     out = []
     for i, r in enumerate(recs, start=1):
@@ -193,6 +222,8 @@ def run(ctx):
     for sig, what, rp, key in part["fails"]:
         ctx.fail(sig, what, rp, key)
     cov = part["coverage"]
+    for k, v in (("templates_records_accepted", 0), ("templates_records_judged_by_tlc", 1), ("templates_shape_classes", 0), ("templates_samples", [])):
+        cov.setdefault(k, v)
     cov.update({"states": sum(r["distinct"] for r in part["tlc"]), "transitions": sum(r["generated"] for r in part["tlc"]),
                 "traces_validated_against_impl": cov["templates_records_accepted"], "exhaustive": True,
                 "evaluations": cov["templates_records_judged_by_tlc"], "distinct_nontrivial": cov["templates_shape_classes"],
